@@ -380,6 +380,7 @@ def run_order(case):
         fed.expect(filt.filter(fed.feed()), exp, "Riffle vs pop/insert LCG model", spacing=spacing, seed=seed)
         fed.check_untouched("Riffle")
         fed.expect(F.Riffle(spacing, seed).filter(fed.feed()), exp, "Riffle, fresh instance with the same seed", spacing=spacing, seed=seed)
+        fed.expect(filt.filter(fed.feed()), exp, "Riffle, second complete read of the same instance", spacing=spacing, seed=seed)
     elif f["op"] == "sort":
         keys = list(f["keys"])
         kv = sort_key_values(seq, keys)
@@ -388,6 +389,7 @@ def run_order(case):
         require(filt.params == {"sort_keys": keys or "*"}, "Sort.params", params=filt.params, keys=keys)
         fed.expect(filt.filter(fed.feed()), exp, "Sort vs stable sorted()", keys=keys, form=f["form"], key_values=kv)
         fed.check_untouched("Sort")
+        fed.expect(filt.filter(fed.feed()), exp, "Sort, second complete read of the same instance", keys=keys)
     else:
         raise ValueError(f["op"])
 
@@ -483,6 +485,9 @@ def run_select(case):
         out2 = list(make(seed).filter(fed.feed()))
         require([fz_interaction(o) for o in out2] == [fz_interaction(o) for o in out],
                 "Reservoir: two fresh instances with the same seed disagree", seed=seed, first=pos, second=fed.positions(out2))
+        out3 = list(filt.filter(fed.feed()))
+        require([fz_interaction(o) for o in out3] == [fz_interaction(o) for o in out],
+                "Reservoir: second complete read of the same instance differs (the sample is not determined by the seed alone)", seed=seed, first=pos, second=fed.positions(out3))
         if count is not None and 1 <= count < n and seq["tag"]:
             samples = set()
             for s in RES_SEEDS:
@@ -662,6 +667,13 @@ def run_identity(case):
         fed.check_untouched("Cache")
         fed.expect(filt.filter(fed.feed()), ident, "Cache, second read", n_slice=f["n_slice"])
         fed.expect(filt.filter(iter(())), ident, "Cache, read after the source is gone", n_slice=f["n_slice"])
+        # a reader that stops early and closes its generator must not freeze a partial cache
+        filt2 = F.Cache(f["n_slice"]) if f["n_slice"] is not None else F.Cache()
+        k = (3 * (f["n_slice"] or 1) + 1) % (n + 1)
+        g = iter(filt2.filter(fed.feed()))
+        for _ in range(k): next(g)
+        g.close()
+        fed.expect(filt2.filter(fed.feed()), ident, "Cache, complete read after an abandoned partial read", n_slice=f["n_slice"], abandoned_after=k)
     elif op == "batch":
         size = f["size"]
         b = F.Batch(size)
@@ -902,6 +914,12 @@ def run_pipes(case):
     elif op == "cache":
         c = P.Cache(case["n_slice"])
         same(c.filter(feed()), range(n), "pipes.Cache first read"); same(c.filter(feed()), range(n), "pipes.Cache second read")
+        c2 = P.Cache(case["n_slice"])
+        k = (3 * (case["n_slice"] or 1) + 1) % (n + 1)
+        g = iter(c2.filter(feed()))
+        for _ in range(k): next(g)
+        g.close()
+        same(c2.filter(feed()), range(n), "pipes.Cache complete read after an abandoned partial read")
     elif op == "identity":
         require(P.Identity().filter(given) is given, "pipes.Identity must return what it is given")
     else:
